@@ -208,7 +208,7 @@ class WbFabric:
 
     def __init__(self, name, kind, module, masters, slaves, decs, lean_open, register=False, timeout=None,
                  error_sig=None, alphabet=None, env=None, bus=None, spec=None, adr_shifts=None, exclusive=True,
-                 adr_pool_extra=None, adr_maps=None):
+                 adr_pool_extra=None, adr_maps=None, slave_shifts=None, model_shifts=True):
         self.name, self.kind, self.module = name, kind, module
         # `exclusive`: the address map is meant to be disjoint (everything SoCBusHandler accepts must be), so a
         # cycle presented to two slaves is a violation (monitor rule R10); False only for the deliberately
@@ -226,8 +226,11 @@ class WbFabric:
         self.data_width = spec.data_width
         # byte-addressed master ports (SoC glue): master i drives adr << adr_shifts[i] relative to the bus word address
         self.adr_shifts = list(adr_shifts) if adr_shifts else None
-        if self.adr_shifts and any(self.adr_shifts):
-            self.model_letter = self._word_letter
+        if self.adr_shifts and any(self.adr_shifts) and model_shifts:
+            self.model_letter = self._word_letter        # (model_shifts=False: the Lean model converts by itself)
+        # byte-addressed SLAVE ports (`add_slave` of an Interface(addressing="byte")): slave j's own adr is the byte address
+        # of the bus word (word << slave_shifts[j]); the monitor sees it shifted back and checks the low bits are zero
+        self.slave_shifts = list(slave_shifts) if slave_shifts and any(slave_shifts) else None
         # remapped master ports (`add_master(region=…)`): adr_maps[i] is the SPECIFICATION of the remapping (word
         # address driven -> word address the bus must see); used by the monitor only, the model remaps by itself
         self.adr_maps = list(adr_maps) if adr_maps and any(f is not None for f in adr_maps) else None
@@ -304,11 +307,29 @@ class WbFabric:
                 l[NM * i + 3] = f(l[NM * i + 3])
         return tuple(l)
 
+    def _mon_outs(self, outs):
+        """(outs as the word-addressed bus specification sees them, violation or None): byte-addressed slave ports must
+        carry word << shift (R11: the right slave-local address)."""
+        if not self.slave_shifts:
+            return outs, None
+        o = list(outs)
+        for j, sh in enumerate(self.slave_shifts):
+            if sh:
+                a = o[NM * j + 3]
+                if o[NM * j] and (a & ((1 << sh) - 1)):
+                    return o, "R11: byte-addressed slave %d sees address %#x, which is not the base of a bus word" % (j, a)
+                o[NM * j + 3] = a >> sh
+        return o, None
+
     def monitor(self):
         mon = FabricMonitor(self)
-        if (self.adr_shifts and any(self.adr_shifts)) or self.adr_maps:
+        if (self.adr_shifts and any(self.adr_shifts)) or self.adr_maps or self.slave_shifts:
             inner = mon.observe
-            mon.observe = lambda letter, outs: inner(self._mon_letter(letter), outs)
+
+            def observe(letter, outs):
+                o, bad = self._mon_outs(outs)
+                return bad or inner(self._mon_letter(letter), o)
+            mon.observe = observe
         return mon
 
 
@@ -470,8 +491,8 @@ def make_socbus(n, regions, interconnect="shared", register=True, timeout=1e6, d
 
 def glue_word(op):
     """Script line -> word of the Lean driver (`open socglue` / `call socglue`)."""
-    if op[0] == "M":
-        return "M"
+    if op[0] in ("M", "MB"):
+        return op[0]
     if op[0] == "MR":
         return "MR:%d:%d" % (op[1], op[2])
     if op[0] == "I":
@@ -487,6 +508,8 @@ class GlueBuild:
     """A REAL `SoCBusHandler` driven by a build script.  Script lines (position k = name):
          ("M",)                                 add_master("n<k>", Interface)
          ("MR", origin, size)                   add_master("n<k>", Interface, region=SoCRegion(origin, size))  (remapper)
+         ("MB",)                                add_master("n<k>", Interface(addressing="byte"))   (add_adapter converts)
+         ("SB", origin|None, size, cached, linker)  add_slave of an Interface(addressing="byte")
          ("S", origin|None, size, cached, linker)   add_slave("n<k>", Interface, SoCRegion(...))
          ("R", origin|None, size, cached, linker)   add_region("n<k>", SoCRegion(...))       (no slave)
          ("I", origin, size)                    add_region("n<k>", SoCIORegion(origin, size, cached=False))
@@ -505,13 +528,21 @@ class GlueBuild:
         self.bus = bus
         self.masters, self.slaves, self.slave_names = [], [], []
         self.remaps = []                      # per master: (origin, size) of `add_master(region=…)` or None
+        self.mbyte, self.sbyte = [], []       # per master / per slave: byte-addressed port
         self.verdict = "ok"
         stderr = sys.stderr
         try:
             for k, op in enumerate(self.script):
                 name = "n%d" % k
                 try:
-                    if op[0] in ("M", "MR"):
+                    if op[0] == "MB":
+                        mst = wishbone.Interface(data_width=data_width, address_width=address_width, addressing="byte")
+                        bus.add_master(name, mst)
+                        self.masters.append(mst)
+                        self.remaps.append(None)
+                        self.mbyte.append(True)
+                    elif op[0] in ("M", "MR"):
+                        self.mbyte.append(False)
                         mst = wishbone.Interface(data_width=data_width, adr_width=self.adr_width)
                         if op[0] == "MR":
                             bus.add_master(name, mst, region=S.SoCRegion(origin=op[1], size=op[2]))
@@ -519,8 +550,10 @@ class GlueBuild:
                             bus.add_master(name, mst)
                         self.masters.append(mst)
                         self.remaps.append((op[1], op[2]) if op[0] == "MR" else None)
-                    elif op[0] == "S":
-                        slv = wishbone.Interface(data_width=data_width, adr_width=self.adr_width)
+                    elif op[0] in ("S", "SB"):
+                        self.sbyte.append(op[0] == "SB")
+                        slv = (wishbone.Interface(data_width=data_width, address_width=address_width, addressing="byte")
+                               if op[0] == "SB" else wishbone.Interface(data_width=data_width, adr_width=self.adr_width))
                         bus.add_slave(name, slv, S.SoCRegion(origin=op[1], size=op[2], cached=bool(op[3]), linker=bool(op[4])))
                         self.slaves.append(slv)
                         self.slave_names.append(name)
@@ -612,8 +645,12 @@ class GlueBuild:
                         "socglue " + self.lean_args(), register=a["register"] and topo != "p2p",
                         timeout=int(a["timeout"]) if has_to else None,
                         error_sig=_err_sig(getattr(self.bus, "_interconnect", None)),
-                        spec=BusSpec(a["data_width"], self.adr_width, None, self.n),
-                        exclusive=not linker_slaves, adr_pool_extra=self.boundary_words(), adr_maps=maps, **kw)
+                        spec=BusSpec(a["data_width"], self.adr_width,
+                                     [a["address_width"] if b else self.adr_width for b in self.mbyte[:self.n]], self.n),
+                        exclusive=not linker_slaves, adr_pool_extra=self.boundary_words(), adr_maps=maps,
+                        adr_shifts=[sh if b else 0 for b in self.mbyte[:self.n]], model_shifts=False,
+                        slave_shifts=[sh if b else 0 for b in self.sbyte[:self.m]], **kw)
+        inst.spec.adr_width = self.adr_width     # the bus is word addressed
         inst.topology = self.topology
         return inst
 
